@@ -37,9 +37,7 @@ def rule_rel(R):
         rcalls = [rc for rc in outq.calls_to(f, hb, rem) if rc.bb in blocks and arm_of(hb, sw, rc.bb) == ["PubRec"]]
         true_edges = []
         for rc in rcalls:
-            for si in hb.result_switches(lambda x, rc=rc: peel(x)[0] == "call" and peel(x)[1] == rc.bb):
-                if si["edges"].get(True) is not None:
-                    true_edges.append((si["bb"], si["edges"][True]))
+            true_edges += outq.removed_edges(f, hb, rc, rem)
         ok, off, np_ = paths.every_path_passes(hb, entry, c.bb, via_edges=true_edges) if true_edges else (False, None, 0)
         R.stats["paths"] += np_
         R.ob("rel/after-removal#%d" % n, ok,
@@ -136,16 +134,15 @@ def rule_wire(R):
     # release step identifiers come from the entry
     ns = roles.method(f, roles.OUTBOUND, "next_step")
     m = 0
-    for bb, j, s in ns.assigns():
-        rv = s["rv"]
-        if bb in ns.reachable and "agg" in rv and (rv["agg"].get("adt") or "").endswith("ReleaseStep"):
-            t = ns.rvalue_term(rv)
-            fields = dict(zip(t[4], t[5]))
-            r1, n1 = chain(fields.get("packet_id"), extra=outq.ELEM)
-            m += 1
-            R.ob("wire/step-id#%d" % m, "pending_release" in n1 and n1[-1] == "packet_id",
-                 "a release step is built from an entry of the release list (packet_id = %s)" % show(fields.get("packet_id")),
-                 where=s["span"])
+    for sc in outq.step_constructions(f, ns):
+        if sc["kind"] != "Release":
+            continue
+        fields = sc["fields"]
+        r1, n1 = chain(fields.get("packet_id"), extra=outq.ELEM) if fields.get("packet_id") is not None else (None, [])
+        m += 1
+        R.ob("wire/step-id#%d" % m, "pending_release" in n1 and n1[-1:] == ["packet_id"],
+             "a release step is built from an entry of the release list (packet_id = %s)"
+             % (show(fields.get("packet_id")) if fields.get("packet_id") is not None else None), where=sc["span"])
     R.floor("wire/step", m, 1, "ReleaseStep constructions")
     re = outq.rearm_sites(f)
     _, ccode = roles.session_connect(f)
